@@ -156,5 +156,11 @@ pub fn run(ctx: &Ctx) {
             check(&js, &jv, l)
         },
     );
+    // many elements, little data per element (options that are mostly absent / mostly present, unit variants, sparse records)
+    ctx.par_proptest("long-sparse-collections", ctx.tier.pick(3_000, 40_000), gen::arb_long_sparse, |(s, v), l| {
+        let (js, jv) = prepare(s, v, false, l);
+        l.class("long-sparse-collection");
+        check(&js, &jv, l)
+    });
     super::corpus_checks::c17(ctx);
 }
